@@ -166,8 +166,10 @@ def run(ctx):
                 claims += [f for _, f in W.entries_eq(np.asarray(sf, dtype=object), (Minv[tags[2]] @ spec).view(SA))] if tags[1] == tags[2] else []
             except AssertionError:
                 claims.append(z3.BoolVal(False))
-        for j in range(0, len(claims), 8):
-            ctx.prove("%s/%d" % (name, j // 8), z3.And(*claims[j : j + 8]), [], family="tree", params=params, abs_cons=False, group="trees-depth%d" % (1 if name.startswith("d1") else 2))
+        # products of composite trees give high-degree identities: smaller conjunctions keep each query within reach
+        ch = 2 if (name.startswith("d2") and desc[0] == "mul") else 8
+        for j in range(0, len(claims), ch):
+            ctx.prove("%s/%d" % (name, j // ch), z3.And(*claims[j : j + ch]), [], family="tree", params=params, abs_cons=False, group="trees-depth%d" % (1 if name.startswith("d1") else 2))
 
     def safe_check_tree(desc, real, spec, tags, name):
         try:
